@@ -10,6 +10,43 @@ use sml_rs::util::Buffer;
 mod parse;
 mod reader;
 
+/// counting allocator: total bytes requested (alloc + the new size of every realloc) and the
+/// number of requests, per thread of interest (the harness is single threaded)
+pub struct Counting;
+pub static ALLOC_BYTES: std::sync::atomic::AtomicU64 = std::sync::atomic::AtomicU64::new(0);
+pub static ALLOC_CALLS: std::sync::atomic::AtomicU64 = std::sync::atomic::AtomicU64::new(0);
+pub static ALLOC_MAX: std::sync::atomic::AtomicU64 = std::sync::atomic::AtomicU64::new(0);
+unsafe impl std::alloc::GlobalAlloc for Counting {
+    unsafe fn alloc(&self, l: std::alloc::Layout) -> *mut u8 {
+        use std::sync::atomic::Ordering::Relaxed;
+        ALLOC_BYTES.fetch_add(l.size() as u64, Relaxed);
+        ALLOC_CALLS.fetch_add(1, Relaxed);
+        ALLOC_MAX.fetch_max(l.size() as u64, Relaxed);
+        if l.size() > (1usize << 32) {
+            // do not really try to get hundreds of gigabytes: report failure like an exhausted allocator
+            return std::ptr::null_mut();
+        }
+        std::alloc::System.alloc(l)
+    }
+    unsafe fn dealloc(&self, p: *mut u8, l: std::alloc::Layout) {
+        std::alloc::System.dealloc(p, l)
+    }
+    unsafe fn realloc(&self, p: *mut u8, l: std::alloc::Layout, n: usize) -> *mut u8 {
+        use std::sync::atomic::Ordering::Relaxed;
+        ALLOC_BYTES.fetch_add(n as u64, Relaxed);
+        ALLOC_CALLS.fetch_add(1, Relaxed);
+        ALLOC_MAX.fetch_max(n as u64, Relaxed);
+        std::alloc::System.realloc(p, l, n)
+    }
+}
+#[global_allocator]
+static GLOBAL: Counting = Counting;
+
+pub fn alloc_snapshot() -> (u64, u64) {
+    use std::sync::atomic::Ordering::Relaxed;
+    (ALLOC_BYTES.load(Relaxed), ALLOC_CALLS.load(Relaxed))
+}
+
 pub fn unhex(s: &str) -> Vec<u8> {
     if s == "." {
         return Vec::new();
